@@ -133,6 +133,8 @@ fn docs() -> Vec<Doc> {
     let rules_big = Some([a("sigid-big", "enforce", "deny", 1000), a("sigid", "enforce", "deny", 0), a("sigid", "enforce", "allow", 0)]);
     // ids that differ from rulesB's ONLY in letter case (a different id: ids are opaque), with other content
     let rules_g = Some([a("WS-2", "enforce", "deny", 1), a("IMDS-2", "enforce", "deny", 1), None]);
+    // differs from rulesA ONLY in the IMDS item (mode disabled, new id): the wireserver and hostga items are rulesA's
+    let rules_h = Some([a("sigid", "enforce", "deny", 1), a("imds-off", "disabled", "deny", 0), a("sigid", "enforce", "allow", 0)]);
     let d = |name: &'static str, v2: bool, v1_state: &'static str, enabled: bool, rules: Option<[Option<Item>; 3]>, key: usize| Doc { name, v2, v1_state, enabled, rules, key };
     vec![
         d("v1/Disabled/no-key", false, "Disabled", false, None, 0),                    // 0
@@ -153,6 +155,7 @@ fn docs() -> Vec<Doc> {
         d("v1/Wireserver/key2", false, "Wireserver", true, None, 2),                   // 15
         d("v2/on/empty authorizationRules object/key1", true, "", true, Some([None, None, None]), 1), // 16
         d("v2/on/rulesG(ids WS-2,IMDS-2: rulesB's in upper case, other content)/key1", true, "", true, rules_g, 1), // 17
+        d("v2/on/rulesH(rulesA with only the IMDS item changed: disabled)/key1", true, "", true, rules_h, 1), // 18
     ]
 }
 
